@@ -367,6 +367,7 @@ def check_history_oracles(ctx, jobs, a, which):
                 if i > 0 and dumps[i - 1]['done'] == '1' and op in ('s', 'e'):
                     prev, curd = dict(dumps[i - 1]), dict(d)
                     prev.pop('r'), curd.pop('r')
+                    prev.pop('acts', None), curd.pop('acts', None)
                     if prev != curd or d['r'] != '1':
                         ctx.violation('end-not-absorbing', 'a step after the end changed the machine (call %d)' % i, {'source': c['text'], 'history': h[:i + 1]})
                         break
